@@ -297,6 +297,11 @@ Obs runCase(const Spec& s) {
         break;
       }
     }
+    // Scenarios that are not about the destructor's timing stop the scheduler thread first: on the
+    // unchanged tree a kick-off that is preempted between its cancelled test and its inProgress
+    // increment lets ~TimedTask free the closure under it (known finding, scripted in dtor-gated and
+    // left to chance only in dtor-random); on a loaded machine that preemption can last many periods.
+    if (s.scen == kCancelBeforeDue || s.scen == kCancelMid || s.scen == kCancelGatedPool) tts.reset();
     moved.reset();
     if (s.moveHandle && !s.detach) {
       dtorRetStamp = vrt::stamp();
